@@ -234,6 +234,36 @@ pub fn judge_altered(rep: &mut Report, c: &Corpus, altered: &[u8], fault: Fault,
             Err(p) => rep.violation("panic", format!("verify:{}", p.signature()), p.msg.clone(), J::obj().set("altered", J::hex(altered))),
         }
     }
+    // (3b) the structural walkers (`FrameIterator`, `generate_seektable`) on truncated files whose
+    // STREAMINFO states the length: a cut - also one exactly on a frame boundary - leaves fewer
+    // samples than promised, which they have to report like the readers do.  (With an unknown length
+    // they document end-of-data as the normal end, so only declared lengths are judged.)
+    if matches!(fault, Fault::Cut(_)) && c.total_known && all_err {
+        let walked = mon::guard(|| -> Result<u64, String> {
+            let it = flac_codec::stream::FrameIterator::new(std::io::Cursor::new(altered)).map_err(|e| crate::api::show(&e))?;
+            let mut k = 0u64;
+            for f in it {
+                f.map_err(|e| crate::api::show(&e))?;
+                k += 1;
+            }
+            Ok(k)
+        });
+        let table = mon::guard(|| {
+            use flac_codec::encode::{generate_seektable, SeekTableInterval};
+            generate_seektable(std::io::Cursor::new(altered), SeekTableInterval::Frames(std::num::NonZero::new(1).unwrap())).map(|t| t.points.len()).map_err(|e| crate::api::show(&e))
+        });
+        let replay = || J::obj().set("corpus", c.label.as_str()).set("fault", what).set("altered", J::hex(altered));
+        match walked {
+            Err(p) => rep.violation("panic", format!("frame-iterator:{}", p.signature()), p.msg.clone(), replay()),
+            Ok(Ok(k)) => rep.violation("silent-accept", "silent-accept:truncation:FrameIterator", format!("{what}: FrameIterator walked {k} frames of a truncated file with a declared length to its end without any error"), replay()),
+            Ok(Err(_)) => rep.count("outcome", "truncation:FrameIterator-error"),
+        }
+        match table {
+            Err(p) => rep.violation("panic", format!("generate-seektable:{}", p.signature()), p.msg.clone(), replay()),
+            Ok(Ok(n)) => rep.violation("silent-accept", "silent-accept:truncation:generate_seektable", format!("{what}: generate_seektable returned {n} points for a truncated file with a declared length"), replay()),
+            Ok(Err(_)) => rep.count("outcome", "truncation:generate_seektable-error"),
+        }
+    }
     // (4) the verification entry points agree with the readers and with each other: what every reader
     // refused is not "verified" (with or without a stored MD5), and the path-based `verify` gives
     // the verdict of `verify_reader` on the same bytes (sampled: it needs a real file)
@@ -335,6 +365,66 @@ fn checksum_collision_candidate(c: &Corpus, altered: &[u8], delivered: &[i32]) -
     collision_from(altered, fr.offset, fr.len)
 }
 
+fn raw_body_flips(rep: &mut Report, c: &Corpus) {
+    use flac_codec::decode::FlacStreamReader;
+    let Ok(d) = decode_file(&c.bytes, &Rules::LENIENT) else { return };
+    if c.bytes.len() > 3000 || d.frames.is_empty() || d.frames.iter().any(|f| f.rate_code == 0 || f.bps_code == 0 || f.rate == 0) {
+        return;
+    }
+    let base = d.frames_start;
+    let mut raw = c.bytes[base..d.end.min(c.bytes.len())].to_vec();
+    let ch = d.info.channels as usize;
+    for (fi, f) in d.frames.iter().enumerate() {
+        let (s, e) = (f.offset - base + f.header_len, f.offset - base + f.len);
+        for pos in s..e {
+            for bit in 0..8 {
+                // one bit in seven, spread by position
+                if (pos * 8 + bit + fi) % 7 != 0 {
+                    continue;
+                }
+                raw[pos] ^= 1 << bit;
+                rep.eval();
+                let r = mon::guard(|| {
+                    let mut rd = FlacStreamReader::new(std::io::Cursor::new(&raw[..]));
+                    let mut outcome: Vec<Result<Vec<i32>, String>> = vec![];
+                    for _ in 0..=fi {
+                        match rd.read() {
+                            Ok(fr) => outcome.push(Ok(fr.samples.to_vec())),
+                            Err(e) => {
+                                outcome.push(Err(crate::api::show(&e)));
+                                break;
+                            }
+                        }
+                    }
+                    outcome
+                });
+                let replay = || J::obj().set("corpus", c.label.as_str()).set("raw_frames", J::hex(&raw)).set("flipped_byte", pos).set("bit", bit).set("frame", fi);
+                match r {
+                    Err(p) => rep.violation("panic", format!("stream-reader:{}", p.signature()), format!("{} at {}", p.msg, p.location), replay()),
+                    Ok(out) => {
+                        let want = |k: usize| c.pcm[c.boundaries[k]..c.boundaries[k + 1]].to_vec();
+                        let _ = ch;
+                        let intact = out.iter().take(fi).enumerate().all(|(k, o)| matches!(o, Ok(v) if *v == want(k)));
+                        match out.get(fi) {
+                            _ if !intact => rep.violation("corrupt-delivery", "raw-flip:earlier-frame-affected", format!("{}: a flipped bit in frame {fi} changed what the stream reader returns for an earlier frame", c.label), replay()),
+                            Some(Err(_)) => rep.count("outcome", "raw-body-flip:error"),
+                            Some(Ok(_)) if collision_from(&raw, f.offset - base, f.len) => rep.count("outcome", "raw-body-flip:checksum-collision-frame"),
+                            Some(Ok(v)) => rep.violation(
+                                "silent-accept",
+                                "raw-flip:damaged-frame-not-reported",
+                                format!("{}: bit {bit} of byte {pos} (body of frame {fi}) flipped: FlacStreamReader::read returned Ok ({} samples, {}) instead of an error", c.label, v.len(), if fi + 1 < d.frames.len() && *v == want(fi + 1) { "the NEXT frame - the damaged one was skipped silently" } else { "not the written frame" }),
+                                replay(),
+                            ),
+                            None => {}
+                        }
+                    }
+                }
+                raw[pos] ^= 1 << bit;
+            }
+        }
+    }
+}
+
 fn fault_name(f: Fault) -> &'static str {
     match f {
         Fault::Flip(_) => "bitflip",
@@ -385,6 +475,11 @@ pub fn run_corpus_file(rep: &mut Report, c: &Corpus, thorough: bool) {
         let what = format!("cut at {cut}");
         judge_altered(rep, c, &c.bytes[..cut], Fault::Cut(cut), &what, true);
     }
+    // raw-frame reader: a flipped bit in the BODY of a frame (behind the header's own CRC-8, up to and
+    // including the CRC-16) makes that frame's `read()` return an error - the damaged frame is not
+    // silently dropped in favour of the next one.  (Header damage is different by design: a header
+    // that fails its CRC-8 is not a frame start at all for a reader that resynchronises.)
+    raw_body_flips(rep, c);
     // MD5 field: every single-bit flip of the 16 digest bytes must not verify
     if c.md5_present && thorough || c.md5_present && c.bytes.len() < 700 {
         for pos in 26..42 {
